@@ -2565,6 +2565,17 @@ hsStateDetermined:
  */
                     return MATRIXSSL_SUCCESS;
                 }
+                if (hsLen != ssl->fragLenStored)
+                {
+                    /* Every fragment of a message carries the same total
+                       length: the reassembly buffer was sized from the
+                       first one, and completion / the parse end below are
+                       computed from the length in the current header. */
+                    ssl->err = SSL_ALERT_DECODE_ERROR;
+                    psTraceIntDtls("Fragment with inconsistent message length %d\n",
+                                   (int) hsLen);
+                    return MATRIXSSL_ERROR;
+                }
 /*
                 Still could be a duplicate fragment.  Make sure we haven't
                 seen it before.  If we haven't this routine also returns
